@@ -80,6 +80,8 @@ func TestVerif_C19S(t *testing.T) {
 		// the client runs log in more than ten times within a few seconds
 		c.Base.PasswordAttemptGlobalBurstLimit = 100
 		c.Base.PasswordAttemptGlobalRateLimit = 10
+		// the web-browser login of the client (CLI token shown in the browser, cookie sent to the client's listener)
+		c.Base.WebauthTokenForCliLifetime = 10 * time.Minute
 		// an Ed25519 CA, sealed with the same passphrase as the main one
 		_, edPriv, err := ed25519.GenerateKey(rand.Reader)
 		if err != nil {
@@ -227,7 +229,10 @@ func TestVerif_C19S(t *testing.T) {
 	sb.WriteString("From KM Require Import Base.Cases Model.KeyStrength Model.Client.\nFrom KMW Require Import gen.Tables.\n")
 	sb.WriteString("Definition kt (n : N) : keytype := if (n =? 0)%N then KRsa else if (n =? 1)%N then KP256 else if (n =? 2)%N then KP384 else KEd25519.\n")
 	sb.WriteString("Definition sweep : list (N * bool * bool) := [" + strings.Join(cases, "; ") + "].\n")
-	sb.WriteString("Definition c19s_mismatches := Eval vm_compute in mismatches (fun c : N * bool * bool => let '(t, s, x) := c in negb (Bool.eqb (server_accepts_ssh ssh_key_type_alternatives (N.of_nat client_rsa_key_size) (kt t)) s && Bool.eqb (server_accepts_x509 (N.of_nat client_rsa_key_size) (kt t)) x)) sweep.\nPrint c19s_mismatches.\n")
+	sb.WriteString("Definition c19s_bad (c : N * bool * bool) : bool := let '(t, s, x) := c in negb (Bool.eqb (server_accepts_ssh ssh_key_type_alternatives (N.of_nat client_rsa_key_size) (kt t)) s && Bool.eqb (server_accepts_x509 (N.of_nat client_rsa_key_size) (kt t)) x).\n")
+	sb.WriteString("Definition c19s_mismatches := Eval vm_compute in mismatches c19s_bad sweep.\nPrint c19s_mismatches.\n")
+	// the property predicate on the observation: a key of an offered type was refused (ssh or x509)
+	sb.WriteString("Definition c19s_violating := Eval vm_compute in mismatches (fun c : N * bool * bool => c19s_bad c && negb (snd (fst c) && snd c)) sweep.\nPrint c19s_violating.\n")
 	sb.WriteString("Definition c19s_ncases := Eval vm_compute in length sweep.\nPrint c19s_ncases.\n")
 	if err := ioutil.WriteFile(filepath.Join(verifOut(), "CasesC19S.v"), []byte(sb.String()), 0644); err != nil {
 		t.Fatal(err)
